@@ -89,6 +89,118 @@ def orient_comparisons(tree):
     return count
 
 
+def positive_branches(tree):
+    """Normalisation: a two-way branch is read with its positive test first.
+    ``if not T: A else: B`` is read as ``if T: B else: A``; ``!=``, ``not in``
+    and ``is not`` tests with an else branch likewise as ``==``, ``in``, ``is``
+    with the branches exchanged (same for conditional expressions).  elif
+    chains (an else branch that is a single ``if``) are left as written.
+    Rules about "the true edge" and "the false edge" are stated on that form.
+    Returns the number of branches exchanged."""
+    opp = {ast.NotEq: ast.Eq, ast.NotIn: ast.In, ast.IsNot: ast.Is}
+    count = 0
+    for node in ast.walk(tree):
+        if isinstance(node, ast.If):
+            if not node.orelse or (len(node.orelse) == 1 and isinstance(node.orelse[0], ast.If)):
+                continue
+        elif not isinstance(node, ast.IfExp):
+            continue
+        swapped = True
+        while swapped:
+            swapped = False
+            test = node.test
+            if isinstance(test, ast.UnaryOp) and isinstance(test.op, ast.Not):
+                node.test = test.operand
+                swapped = True
+            elif isinstance(test, ast.Compare) and len(test.ops) == 1 and type(test.ops[0]) in opp:
+                test.ops = [opp[type(test.ops[0])]()]
+                swapped = True
+            if swapped:
+                node.body, node.orelse = node.orelse, node.body
+                count += 1
+    return count
+
+
+def _negated(test):
+    opp = {ast.Eq: ast.NotEq, ast.NotEq: ast.Eq, ast.In: ast.NotIn, ast.NotIn: ast.In,
+           ast.Is: ast.IsNot, ast.IsNot: ast.Is}
+    if isinstance(test, ast.Compare) and len(test.ops) == 1 and type(test.ops[0]) in opp:
+        return ast.copy_location(ast.Compare(left=test.left, ops=[opp[type(test.ops[0])]()],
+                                             comparators=test.comparators), test)
+    if isinstance(test, ast.UnaryOp) and isinstance(test.op, ast.Not):
+        return test.operand
+    return ast.copy_location(ast.UnaryOp(op=ast.Not(), operand=test), test)
+
+
+def flatten_guards(tree):
+    """Normalisation: nesting that only expresses an early exit is read as the
+    early exit.  (a) ``if T: <block ending in return/raise/continue/break>
+    else: <rest>`` is read as the ``if`` followed by ``<rest>`` (if only the
+    else block ends that way, with the test negated - except inside elif
+    chains, which stay as written); (b) a loop body whose
+    last statement is ``if T: <block>`` without else is read as ``if not T:
+    continue`` followed by ``<block>``.  Filters, latches and guards are then
+    top-level statements of their block however the author nested them.
+    Returns the number of rewrites."""
+    count = 0
+
+    def exits(stmts):
+        return bool(stmts) and isinstance(stmts[-1], (ast.Return, ast.Raise, ast.Continue, ast.Break))
+
+    def size(stmts):
+        return sum(1 for st in stmts for _ in ast.walk(st))
+
+    def flat(stmts, in_loop, in_chain):
+        nonlocal count
+        out = []
+        work = list(stmts)
+        while work:
+            st = work.pop(0)
+            if isinstance(st, ast.If) and st.orelse:
+                chain = in_chain or (len(st.orelse) == 1 and isinstance(st.orelse[0], ast.If))
+                if exits(st.body) and exits(st.orelse) and not chain and size(st.orelse) < size(st.body):
+                    # both ways out: the shorter block is the guard
+                    st.test = _negated(st.test)
+                    st.body, st.orelse = st.orelse, st.body
+                if exits(st.body):
+                    work = st.orelse + work
+                    st.orelse = []
+                    count += 1
+                elif exits(st.orelse) and not chain:
+                    st.test = _negated(st.test)
+                    rest, st.body = st.body, st.orelse
+                    st.orelse = []
+                    work = rest + work
+                    count += 1
+            if isinstance(st, ast.If) and not st.orelse and exits(st.body) and work and exits(work) \
+                    and not in_chain and size(work) < size(st.body):
+                # `if T: <long, exits>` + `<short, exits>`: the short one is the guard
+                st.test = _negated(st.test)
+                st.body, work = work, st.body
+                count += 1
+            if in_loop and not work and isinstance(st, ast.If) and not st.orelse \
+                    and not exits(st.body) and st.body:
+                guard = ast.copy_location(ast.If(
+                    test=_negated(st.test),
+                    body=[ast.copy_location(ast.Continue(), st)], orelse=[]), st)
+                out.append(guard)
+                work = list(st.body)
+                count += 1
+                continue
+            out.append(st)
+        return out
+
+    for node in ast.walk(tree):
+        for field in ('body', 'orelse', 'finalbody'):
+            stmts = getattr(node, field, None)
+            if isinstance(stmts, list) and stmts and isinstance(stmts[0], ast.stmt):
+                in_loop = isinstance(node, (ast.For, ast.While)) and field == 'body'
+                # the else branch of an elif chain is left as the author wrote it
+                in_chain = isinstance(node, ast.If) and field == 'orelse' and len(stmts) == 1
+                setattr(node, field, flat(stmts, in_loop, in_chain))
+    return count
+
+
 class Module:
     def __init__(self, name, path):
         self.name = name
@@ -101,6 +213,8 @@ class Module:
             raise AnalysisError('cannot parse {0}: {1}'.format(path, err))
         self.inlined_temporaries = inline_test_temporaries(self.tree)
         self.oriented_comparisons = orient_comparisons(self.tree)
+        self.positive_branches = positive_branches(self.tree)
+        self.flattened_guards = flatten_guards(self.tree)
         self.funcs = {}      # qualname -> FunctionDef
         self.classes = {}    # name -> ClassDef
         self.func_class = {}  # qualname -> class name or None
